@@ -94,6 +94,11 @@ class Family:
                     self.funcs.setdefault(n.name, []).append((n.name, n, rel))
 
     def find(self, qual):
+        if "@" in qual:
+            name = qual.split("@")[1]
+            for label, f, rel in self.funcs.get(name, []):
+                return f, rel
+            raise TranslateError("function %s not found" % qual)
         cls, name = qual.split(".")
         for label, f, rel in self.methods.get(name, []):
             if label == qual:
@@ -305,6 +310,29 @@ class OpScan(ee.Scan):
 
     ev_Set = ev_List
 
+    def ev_BinOp(self, n, env):
+        l = flat(self.ev(n.left, env))
+        r = flat(self.ev(n.right, env))
+        if (is_obj(l) or is_obj(r)) and not has_list(l) and not has_list(r) and isinstance(n.op, (ast.Add, ast.Sub)) \
+                and "add" in self.family.methods:
+            src = ast.unparse(n)[:70]
+            out = {"derived"}
+            for idx, t in ((0, l), (1, r)):
+                if is_obj(t):
+                    summ = self.summaries_for("m", "add", idx, {})
+                    self.apply_summary(summ, "add", src, n)
+                    out |= {"shr:" + x for x in summ["shares"]}
+            return frozenset(out)
+        if (is_obj(l) or is_obj(r)) and isinstance(n.op, (ast.MatMult, ast.Mult)) and not has_list(l) and not has_list(r):
+            return fs("derived")          # __matmul__ = apply, __mul__ = scale (not in place)
+        if has_list(l) or has_list(r):
+            if "inlist0" in l and not has_list(r) and not is_obj(r):
+                return fs("inlist0")
+            return fs("inlist")
+        if (l | r) & (ee.FRESH | {"ctor"}):
+            return fs("derived")
+        return EMPTY
+
     # ------------------------------------------------------------------ calls
     def call_consts(self, n):
         c = {}
@@ -369,7 +397,7 @@ class OpScan(ee.Scan):
         if isinstance(f, ast.Attribute):
             m = f.attr
             is_super = isinstance(f.value, ast.Call) and isinstance(f.value.func, ast.Name) and f.value.func.id == "super"
-            if m in ("__class__",) or (isinstance(f.value, ast.Attribute) and f.value.attr == "__class__" and m == "__new__"):
+            if m in ("__class__",) or (isinstance(f.value, ast.Attribute) and f.value.attr == "__class__"):
                 for a in n.args:
                     self.ev(a, env)
                 return fs("ctor")
@@ -522,6 +550,8 @@ class OpScan(ee.Scan):
 def scan_def(family, label, f, idx, consts, is_method):
     params = [a.arg for a in f.args.args]
     deco = [ast.unparse(d) for d in f.decorator_list]
+    if is_method and ("classmethod" in deco or "staticmethod" in deco) and idx == 0:
+        return None
     if is_method and "staticmethod" in deco:
         idx = idx - 1
     if idx < 0 or idx >= len(params):
@@ -582,6 +612,10 @@ CHAIN_ROWS = [
     ("Mpo.apply", {}, "self"), ("Mpo.apply", {}, "mp"), ("Mpo.contract", {}, "self"), ("Mpo.contract", {}, "mps"),
     ("Mpo.conj_trans", {}, "self"), ("MpDm.apply", {}, "self"), ("MpDm.apply", {}, "mp"),
     ("MpDm.from_mps", {}, "mps"),
+    ("Mps.expand_bond_dimension", {}, "self"), ("Mps.expand_bond_dimension", {}, "hint_mpo"),
+    ("@expand_bond_dimension", {}, "mps"), ("@expand_bond_dimension", {}, "hint_mpo"),
+    ("@expand_bond_dimension_general", {}, "mps"), ("@expand_bond_dimension_general", {}, "hint_mpo"),
+    ("@expand_bond_dimension_general", {}, "ex_mps"),
 ]
 TREE_ROWS = [
     ("TTNS.copy", {}, "self"), ("TTNS.metacopy", {}, "self"),
@@ -593,6 +627,7 @@ TREE_ROWS = [
     ("TTNS.expectation", {}, "self"), ("TTNS.expectation", {}, "ttno"),
     ("TTNS.calc_1site_rdm", {}, "self"), ("TTNS.calc_2site_rdm", {}, "self"), ("TTNS.calc_1dof_rdm", {}, "self"),
     ("TTNS.calc_bond_entropy", {}, "self"), ("TTNS.calc_bond_singular_values", {}, "self"), ("TTNS.calc_1site_entropy", {}, "self"),
+    ("tree@expand_bond_dimension_general", {}, "mps"), ("tree@expand_bond_dimension_general", {}, "hint_mpo"),
 ]
 
 
@@ -618,7 +653,7 @@ def families(repo):
                    [("mps/mp.py", {"MatrixProduct"}), ("mps/mps.py", {"Mps"}), ("mps/mpo.py", {"Mpo"}), ("mps/mpdm.py", {"MpDm"})],
                    [("mps/mps.py", None), ("mps/lib.py", {"compressed_sum", "_sum"})], set())
     tree = Family(repo, "tree", [("tn/tree.py", {"TTNBase", "TTNS", "TTNO"}), ("tn/treebase.py", {"Tree"})],
-                  [("tn/tree.py", None), ("mps/mps.py", {"normalize"})], copy_setters(repo))
+                  [("tn/tree.py", None), ("mps/mps.py", {"normalize", "expand_bond_dimension_general"})], copy_setters(repo))
     return chain, tree
 
 
@@ -633,7 +668,7 @@ def extract(repo):
                 params = [a.arg for a in f.args.args]
                 if param not in params:
                     raise TranslateError("%s has no parameter %s" % (qual, param))
-                r = scan_def(fam, qual, f, params.index(param), consts, True)
+                r = scan_def(fam, qual, f, params.index(param), consts, "@" not in qual)
                 r.update({"fn": qual, "file": rel, "world": fam.world, "param": param,
                           "variant": ",".join("%s=%s" % kv for kv in sorted(consts.items()))})
                 cur.append(r)
